@@ -506,7 +506,8 @@ def _def_loops(ctx, rel, prefix_re, seq, suffix_of, what, expected):
                 hits.append((it, body))
     key = f"{rel.split('/')[-1]}:{what}"
     if len(hits) != 1:
-        (ctx.bad if hits else ctx.missing)("R4", key, (rel, 0), f"expected one loop defining {expected}, found {len(hits)}")
+        # (several candidate loops: which of them defines the macros is not understood -- not evidence of a wrong definition)
+        (ctx.unrec if hits else ctx.missing)("R4", key, (rel, 0), f"expected one loop defining {expected}, found {len(hits)}")
         return
     it, body = hits[0]
     outs = [x for x in body if x[0] == "out"]
